@@ -7,9 +7,10 @@
      handle_request perform (base policy first, then dhcp-policies),
    - the options of the reply.
    Address sets are membership predicates over N; nothing is enumerated.
-   The model is of the code AFTER the repairs of F19 (last host address of a
-   subnet is part of the pool) and F20 (the receiving address is removed from
-   a configured pool).  Definitions only. *)
+   The model is of the code AFTER the repair of F19 (the last host address of
+   a subnet is part of the pool).  F20 (a configured pool is not purged of the
+   receiving address) is NOT repaired -- the repair conflicts with the test
+   suite -- and is modelled as coded.  Definitions only. *)
 From Erbium Require Import Lib.Base Model.DhcpPolicy.
 
 (* ---- option values (DhcpOptionTypeValue::as_bytes) --------------------- *)
@@ -177,9 +178,10 @@ Definition OPTION_SERVERID : N := 54.
 Definition init_table (req : request) : table :=
   tset OPTION_SERVERID (Some (be32 (r_serverip req))) (tset OPTION_MSGTYPE (Some [2]) []).
 
-(* OFFER: walk, then server-id again *)
-Definition offer_table (g : config) (req : request) : table :=
-  tset OPTION_SERVERID (Some (be32 (r_serverip req))) (rs_opts (snd (policy_walk g req (init_table req)))).
+(* OFFER: walk, then server-id again, then the lease time *)
+Definition offer_table (g : config) (req : request) (lease : N) : table :=
+  tset OPTION_LEASETIME (Some (be32 lease))
+    (tset OPTION_SERVERID (Some (be32 (r_serverip req))) (rs_opts (snd (policy_walk g req (init_table req))))).
 (* ACK: walk, then message type, server-id (the one the client named, if any), lease time *)
 Definition ack_table (g : config) (req : request) (lease : N) : table :=
   tset OPTION_LEASETIME (Some (be32 lease))
